@@ -970,6 +970,7 @@ class Config:  # pylint: disable=too-many-instance-attributes
         self._fields: Dict[str, BaseField] = OrderedDict()
         self._key = schema._key
         self.__keyfile = None  # type: Optional[KeyFile]
+        self.__default_keyfile = None  # type: Optional[KeyFile]
         self._default_value_keys: Set[str] = set()
 
         if key_filename:
@@ -1012,13 +1013,16 @@ class Config:  # pylint: disable=too-many-instance-attributes
         """
         :returns: the config's encryption key file (if not set, get the parent config's key file)
         """
-        if not self.__keyfile:
-            if self._parent:
-                # This will bubble up to the root config
-                self.__keyfile = self._parent._keyfile
-            else:
-                self.__keyfile = KeyFile(Config.DEFAULT_CINCOKEY_FILEPATH)
-        return self.__keyfile
+        if self.__keyfile:
+            return self.__keyfile
+        if self._parent:
+            # This will bubble up to the root config. The parent's key file is not cached here so
+            # that this config keeps following its parent when the parent's key file is changed
+            # or when this config is moved under another parent.
+            return self._parent._keyfile
+        if not self.__default_keyfile:
+            self.__default_keyfile = KeyFile(Config.DEFAULT_CINCOKEY_FILEPATH)
+        return self.__default_keyfile
 
     def _get_field(self, key: str) -> Optional[BaseField]:
         """
